@@ -281,38 +281,68 @@ def c06_4(ctx, ss):
         ctx.violation("C06.4", f"{G}:decayline:one-model", GP, "a decay line can have no model or several")
 
 
+ALIAS_VIEW = ("DecayModelAliasReplacement._replacement",)
+
+
+def alias_lookups(e: ast.AST):
+    """[(lookup node, [ancestors inside e])] for every read of one entry of the alias table in expression `e`"""
+    pm = {}
+    for n in ast.walk(e):
+        for c in ast.iter_child_nodes(n):
+            pm[id(c)] = n
+    out = []
+    for n in ast.walk(e):
+        is_l = (isinstance(n, ast.Subscript) and txt(n.value) == "self.define_defs") or \
+            (isinstance(n, ast.Call) and isinstance(n.func, ast.Attribute) and n.func.attr in ("get", "pop", "setdefault") and txt(n.func.value) == "self.define_defs")
+        if is_l:
+            anc = []
+            x = n
+            while id(x) in pm:
+                x = pm[id(x)]
+                anc.append(x)
+            out.append((n, anc))
+    return out
+
+
 def c06_5(ctx, ss):
-    ff, flow = fn(ss, DEC, "DecayModelAliasReplacement._replacement")
-    rets = returns(ff)
+    # ONE normal form: model() with the lookup helper written out in it (a helper method, or the same code inline, are the same)
+    v = ss.view(DEC, ALIAS_VIEW)
+    mf_, mflow = fn(v, DEC, "DecayModelAliasReplacement.model")
+    arg = mf_.params[1]
+    tok = f"{arg}[0].children[0]"
+    rets = returns(mf_)
     if not rets:
-        raise AnchorMissing("_replacement has no return")
-    p = ff.params[1] if len(ff.params) > 1 else None
+        raise AnchorMissing("model() has no return")
 
     def atom_missing(e):
-        e2 = flow.expand(e)
+        e2 = mflow.expand(e)
         if isinstance(e2, ast.Compare) and len(e2.ops) == 1 and isinstance(e2.ops[0], (ast.In, ast.NotIn)) \
-                and txt(e2.comparators[0]) == "self.define_defs" and txt(e2.left) in (f"{p}.value", f"str({p})", p):
+                and txt(e2.comparators[0]) == "self.define_defs" and txt(e2.left) in (f"{tok}.value", f"str({tok})", tok):
             return isinstance(e2.ops[0], ast.NotIn)
         return None
+
+    def tree_branch(r):
+        return any(kind == "if" and pol and txt(mflow.expand(e)).replace(" ", "") == f"isinstance({arg}[0],Tree)" for kind, e, pol in guards.path_conditions(mf_.node, r))
     ok = True
-    for r in rets:
-        conds = guards.path_conditions(ff.node, r)
-        reach = guards.reachable_under([c for c in conds if c[0] in ("if", "while")], atom_missing, flow)
+    label_rets = [r for r in rets if tree_branch(r)]
+    for r in label_rets:
+        conds = guards.path_conditions(mf_.node, r)
+        reach = guards.reachable_under([c for c in conds if c[0] in ("if", "while")], atom_missing, mflow)
         in_handler = any(c[0] == "exc" for c in conds)
         if reach is not False or in_handler:
             ok = False
-            ctx.violation("C06.5", ckey(ff, r), where(ff, r), f"an undefined model label can reach `{txt(r)[:80]}`: the line is accepted with some other model instead of failing")
+            ctx.violation("C06.5", ckey(mf_, r, "undefined"), where(mf_, r), f"an undefined model label can reach `{txt(r)[:80]}`: the line is accepted with some other model instead of failing")
     # fall-through
-    falls = flow.cfg.reachable(flow.cfg.entry, flow.cfg.exit, avoid={flow.cfg.node_of(r) for r in rets}, skip_labels=("exc", "raise", "assertfail"))
+    falls = mflow.cfg.reachable(mflow.cfg.entry, mflow.cfg.exit, avoid={mflow.cfg.node_of(r) for r in rets}, skip_labels=("exc", "raise", "assertfail"))
     if falls:
         ok = False
-        ctx.violation("C06.5", ckey(ff, None, "fallthrough"), where(ff, ff.node), "_replacement can finish without returning or raising")
-    raises = [n for n in pf.walk_no_nested(ff.node) if isinstance(n, ast.Raise)]
+        ctx.violation("C06.5", ckey(mf_, None, "fallthrough"), where(mf_, mf_.node), "the alias lookup can finish without returning or raising")
+    raises = [n for n in pf.walk_no_nested(mf_.node) if isinstance(n, ast.Raise)]
     if not raises:
         ok = False
-        ctx.violation("C06.5", ckey(ff, None, "no-raise"), where(ff, ff.node), "_replacement never raises")
+        ctx.violation("C06.5", ckey(mf_, None, "no-raise"), where(mf_, mf_.node), "the alias lookup never raises")
     if ok:
-        ctx.holds("C06.5", ckey(ff, None, "must-raise"), where(ff, raises[0]), "with the label absent from the alias table every path ends in raise", len(rets) + len(raises))
+        ctx.holds("C06.5", ckey(mf_, None, "must-raise"), where(mf_, raises[0]), "with the label absent from the alias table every path ends in raise", len(rets) + len(raises))
     # the lookup table is the constructor argument
     cf, cflow = fn(ss, DEC, "DecayModelAliasReplacement.__init__")
     st = [s for s in pf.iter_stmts(cf.node.body) if isinstance(s, ast.Assign) and txt(s.targets[0]) == "self.define_defs"]
@@ -320,28 +350,25 @@ def c06_5(ctx, ss):
         ctx.holds("C06.5", ckey(cf, None, "table"), where(cf, st[0]), "the lookup table is the constructor argument", 1)
     else:
         ctx.violation("C06.5", ckey(cf, None, "table"), where(cf, cf.node), "the alias lookup table is not the table passed by parse()")
-    # model(): every model_label child goes through _replacement
-    mf_, mflow = fn(ss, DEC, "DecayModelAliasReplacement.model")
-    arg = mf_.params[1]
-    rets = returns(mf_)
+    # model(): every model_label child is replaced by the table entry of ITS token
     routed = False
     for r in rets:
-        conds = guards.path_conditions(mf_.node, r)
-        is_tree_branch = any(kind == "if" and pol and txt(e).replace(" ", "") == f"isinstance({arg}[0],Tree)" for kind, e, pol in conds)
-        v = mflow.expand(r.value)
-        calls = [c for c in ast.walk(v) if isinstance(c, ast.Call) and txt(c.func) == "self._replacement"]
-        if is_tree_branch:
-            if len(calls) == 1 and len(calls[0].args) == 1 and txt(calls[0].args[0]) == f"{arg}[0].children[0]":
+        val = mflow.expand(r.value)
+        if tree_branch(r):
+            ls = alias_lookups(val)
+            keys = [txt(n.slice) if isinstance(n, ast.Subscript) else (txt(n.args[0]) if n.args else "") for n, _ in ls]
+            shape = isinstance(val, ast.Call) and txt(val.func) == "Tree" and len(val.args) == 2 and txt(val.args[0]) == "'model'"
+            if shape and len(ls) == 1 and keys[0] in (f"{tok}.value", f"str({tok})", tok) and any(a is val.args[1] for a in [ls[0][0]] + ls[0][1]):
                 routed = True
-                ctx.holds("C06.5", ckey(mf_, r), where(mf_, r), "a model_label child is replaced by self._replacement(<its token>)", 2)
+                ctx.holds("C06.5", ckey(mf_, r), where(mf_, r), "a model_label child is replaced by the alias-table entry of its own token", 2)
             else:
-                ctx.violation("C06.5", ckey(mf_, r), where(mf_, r), f"a model_label child is not looked up: returns `{txt(v)[:100]}`")
+                ctx.violation("C06.5", ckey(mf_, r), where(mf_, r), f"a model_label child is not looked up: returns `{txt(val)[:100]}`")
         else:
-            if calls:
+            if alias_lookups(val):
                 continue
             # non-label branch must keep the children unchanged
-            if not (isinstance(v, ast.Call) and txt(v.func) == "Tree" and len(v.args) == 2 and txt(v.args[1]) == arg):
-                ctx.violation("C06.5", ckey(mf_, r), where(mf_, r), f"a MODEL_NAME-headed model is rewritten: `{txt(v)[:100]}`")
+            if not (isinstance(val, ast.Call) and txt(val.func) == "Tree" and len(val.args) == 2 and txt(val.args[1]) == arg):
+                ctx.violation("C06.5", ckey(mf_, r), where(mf_, r), f"a MODEL_NAME-headed model is rewritten: `{txt(val)[:100]}`")
     if not routed:
         ctx.violation("C06.5", ckey(mf_, None, "routing"), where(mf_, mf_.node), "no branch of model() routes a model_label through the alias lookup")
 
@@ -412,9 +439,21 @@ def c06_7(ctx, ss):
     if not stores:
         raise AnchorMissing("load_additional_decay_models stores nothing")
     seen_first, seen_more = [], []
-    for s in stores:
-        atoms, problems = seq_parts(flow.expand(s.value))          # (expanded: the earlier names may be read into a local first)
-        conds = [c for c in guards.path_conditions(ff.node, s) if c[0] == "if"]
+    def alternatives(v, extra):
+        """`A if c else B` stored == store A under c, store B under not c"""
+        if isinstance(v, ast.IfExp):
+            return alternatives(v.body, extra + [("if", v.test, True)]) + alternatives(v.orelse, extra + [("if", v.test, False)])
+        return [(v, extra)]
+    work = []
+    for s0 in stores:
+        base = [c for c in guards.path_conditions(ff.node, s0) if c[0] == "if"]
+        alts = alternatives(flow.expand(s0.value), [])               # (expanded: the earlier names may be read into a local first)
+        if len(alts) > 1 and all(len(seq_parts(a)[0]) > 0 for a, _ in alts):
+            work += [(s0, a, base + ex) for a, ex in alts]
+        else:
+            work.append((s0, flow.expand(s0.value), base))
+    for s, val, conds in work:
+        atoms, problems = seq_parts(val)
         def none_pol(e, pol):
             """polarity under which `e` says 'nothing registered yet' (None when e is not such a test)"""
             while isinstance(e, ast.UnaryOp) and isinstance(e.op, ast.Not):
